@@ -1316,13 +1316,15 @@ pub fn post_accounting(out: &mut Outcome) {
         sim::record_violation("C11", "double-free", format!("{} matcher-column allocations were freed twice", rep.double_free));
     }
     if rep.leaked > 0 {
-        if fill_panics == 0 {
-            sim::record_violation("C11", "column-leak", format!("{} matcher-column allocations were never freed", rep.leaked));
-        } else {
-            // columns written by a fill callback before it panicked: information only
-            out.probes.insert("alloc.columns_leaked_by_panicking_fill", rep.leaked as u64);
-        }
+        // "each item ... together with the matcher columns filled for it, is destroyed exactly once ...
+        // and nothing it owns is leaked", also for the item whose fill callback panicked
+        sim::record_violation(
+            "C11",
+            "column-leak",
+            format!("{} matcher-column allocations were never freed ({fill_panics} fill callbacks panicked in this run)", rep.leaked),
+        );
     }
+    out.probes.insert("fault.fill_panics_survived", fill_panics);
 }
 
 fn check_notify_visibility(w: usize) {
